@@ -1,4 +1,4 @@
-import PedalModel.AssertionsSpec
+import PedalModel.AssertionsFacts
 import PedalModel.Gen.AssertionConds
 /-
 Helper lemmas for C07 (PedalProofs/C07.lean holds the property theorems).
@@ -35,17 +35,6 @@ theorem specOutcome_of_noErr (c : Ctx) (h : anyErr c = false) (r : Res Bool) :
     specOutcome c r = relOutcome r := by
   simp [specOutcome, h]
 
-/-! ### shape-independent evaluation of a generated condition
-
-The per-assertion theorems of PedalProofs/C07.lean do not compare the generated `CondExpr` with an
-expected term.  They UNFOLD `eval` on whatever the translator produced (`c07_unfold`), split on the
-finitely many observations the specified relation depends on (the answer of `pyCmp` / `pyIn` /
-`eqTest` / `re.search` ..., whether an operand is proxied) and let `simp` compute both sides.  So
-every condition with the same meaning is accepted - early return or `or`, a conditional expression,
-`not (a in b)` or `a not in b`, `unwrap_value(x)` or `x._actual_value if x.is_sandboxed else x`,
-locals and helpers inlined by the translator - and every condition with another meaning leaves an
-unprovable goal.  The lemmas below are the rewriting rules that unfolding needs. -/
-
 theorem noErr_sides (c : Ctx) (h : anyErr c = false) : isErr c.left = false ∧ isErr c.right = false := by
   have he : (isErr c.left || isErr c.right) = false := h
   cases h1 : isErr c.left <;> cases h2 : isErr c.right <;> simp [h1, h2] at he ⊢
@@ -55,335 +44,5 @@ theorem correct_of_noErr (name : String) (cond : CondExpr) (rel : Ctx → Res Bo
     (hc : ∀ c : Ctx, isErr c.left = false → isErr c.right = false →
       evalOutcome (eval c cond) = relOutcome (rel c)) : Correct name cond :=
   correct_of name cond rel h fun c he => hc c (noErr_sides c he).1 (noErr_sides c he).2
-
-theorem V.unwrapped_v (x : V) : x.unwrapped.v = x.v := rfl
-theorem V.unwrapped_px (x : V) : x.unwrapped.px = false := rfl
-theorem V.unwrapped_oid (x : V) : x.unwrapped.oid = x.oid := rfl
-theorem V.unwrapped_unwrapped (x : V) : x.unwrapped.unwrapped = x.unwrapped := rfl
-theorem V.fresh_v (a : PyVal) : (V.fresh a).v = a := rfl
-theorem V.fresh_px (a : PyVal) : (V.fresh a).px = false := rfl
-theorem V.ofBool_v (b : Bool) : (V.ofBool b).v = .bool b := rfl
-theorem V.ofBool_px (b : Bool) : (V.ofBool b).px = false := rfl
-theorem truthy_bool (b : Bool) : truthy (.bool b) = b := rfl
-
-theorem vIn_unwrapped (x y : V) : vIn x.unwrapped y = pyIn x.v y.v := by
-  unfold vIn
-  cases y.v <;> simp [V.unwrapped]
-
-theorem vIn_fresh (a : PyVal) (y : V) : vIn (V.fresh a) y = pyIn a y.v := by
-  unfold vIn
-  cases y.v <;> simp [V.fresh]
-
-/-- a needle that is not a proxy -/
-theorem vIn_raw (x y : V) (h : x.px = false) : vIn x y = pyIn x.v y.v := by
-  unfold vIn
-  cases y.v <;> simp [h]
-
-/-- `is` between two things neither of which is a proxy object is `is` on the underlying objects -/
-theorem pyIs_raw (a b : V) (ha : a.px = false) (hb : b.px = false) : pyIs a b = sameObject a b := by
-  unfold sameObject pyIs
-  simp [V.unwrapped, ha, hb]
-
-theorem pyIs_unwrapped_unwrapped (a b : V) : pyIs a.unwrapped b.unwrapped = sameObject a b := rfl
-
-theorem pyIs_unwrapped_raw (a b : V) (hb : b.px = false) : pyIs a.unwrapped b = sameObject a b :=
-  pyIs_raw a.unwrapped b rfl hb
-
-theorem pyIs_raw_unwrapped (a b : V) (ha : a.px = false) : pyIs a b.unwrapped = sameObject a b :=
-  pyIs_raw a b.unwrapped ha rfl
-
-theorem sameObject_unwrapped_left (a b : V) : sameObject a.unwrapped b = sameObject a b := rfl
-theorem sameObject_unwrapped_right (a b : V) : sameObject a b.unwrapped = sameObject a b := rfl
-
-theorem pyIs_none_right (x : V) (h : x.px = false) : pyIs x (V.fresh .none) = isNoneVal x.v := by
-  unfold pyIs
-  cases hv : x.v <;> simp [V.fresh, h, isNoneVal]
-
-theorem pyIs_none_left (x : V) (h : x.px = false) : pyIs (V.fresh .none) x = isNoneVal x.v := by
-  unfold pyIs
-  cases hv : x.v <;> simp [V.fresh, h, isNoneVal]
-
-theorem pyIs_none_right_unwrapped (x : V) : pyIs x.unwrapped (V.fresh .none) = isNoneVal x.v :=
-  pyIs_none_right x.unwrapped rfl
-
-theorem pyIs_none_left_unwrapped (x : V) : pyIs (V.fresh .none) x.unwrapped = isNoneVal x.v :=
-  pyIs_none_left x.unwrapped rfl
-
-theorem notR_notR (r : Res Bool) : notR (notR r) = r := by
-  cases r with
-  | error e => rfl
-  | ok b => cases b <;> rfl
-
-theorem beq_exact_exact : ("exact_strings" == "exact_strings") = true := by decide
-theorem beq_delta_exact : ("delta" == "exact_strings") = false := by decide
-theorem beq_delta_delta : ("delta" == "delta") = true := by decide
-
-/-- the widened class of assert_is_instance, as the condition computes it with two `==` -/
-theorem widenCls_eq (v : PyVal) :
-    widenCls v = if pyEq v (.typ .int) || pyEq v (.typ .float) then .tuple [.typ .int, .typ .float] else v := by
-  cases v with
-  | typ t => cases t <;> simp [widenCls, pyEq]
-  | _ => simp [widenCls, pyEq, num?]
-
-theorem numCmp_ne_un (a b : Int × Nat) : numCmp a b ≠ .un := by
-  unfold numCmp
-  simp only
-  split
-  · simp
-  · split <;> simp
-
-theorem pyCmp_int_left (n : Int) (r : PyVal) (o : Ord4) (h : pyCmp (.int n) r = .ok o) : o ≠ .un := by
-  cases r <;> simp [pyCmp, num?] at h <;> first
-    | (subst h; exact numCmp_ne_un _ _)
-    | skip
-
-/-! ### numbers and strings under `equality_test` -/
-
-theorem numClose_comm (a b d : Int × Nat) : numClose a b d = numClose b a d := by
-  unfold numClose
-  have h : (a.1 * (2:Int) ^ b.2 - b.1 * (2:Int) ^ a.2).natAbs = (b.1 * (2:Int) ^ a.2 - a.1 * (2:Int) ^ b.2).natAbs := by
-    rw [← Int.natAbs_neg, Int.neg_sub]
-  rw [h, Nat.add_comm a.2 b.2]
-
-theorem numEq_comm (a b : Int × Nat) : numEq a b = numEq b a := by
-  unfold numEq
-  exact BEq.comm
-
-theorem pyEq_num (a e : PyVal) (x y : Int × Nat) (ha : num? a = some x) (he : num? e = some y) :
-    pyEq a e = numEq x y := by
-  cases a <;> simp [num?] at ha <;> cases e <;> simp [num?] at he <;> subst ha <;> subst he <;> simp [pyEq, num?]
-
-/-- `equality_test` on two numbers: the tolerance test as soon as either is a float, else `==`. -/
-theorem eqTest_num (ex : Bool) (d : Int × Nat) (a e : PyVal) (x y : Int × Nat)
-    (ha : num? a = some x) (he : num? e = some y) :
-    eqTest ex (some d) a e = .ok (if isFloat a || isFloat e then numClose y x d else numEq x y) := by
-  cases a <;> simp [num?] at ha <;> cases e <;> simp [num?] at he <;> subst ha <;> subst he <;>
-    simp [eqTest, isFloat, isIntOrFloat, num?, pyEq]
-
-/-- `equality_test` on two strings: exact, or equality of the normal forms. -/
-theorem eqTest_str (ex : Bool) (d : Option (Int × Nat)) (sa se : List Nat) :
-    eqTest ex d (.str sa) (.str se) =
-      if ex then .ok (sa == se)
-      else if isAscii sa && isAscii se then .ok (normStr se == normStr sa) else .error .unmodelled := by
-  simp [eqTest, isFloat, isIntOrFloat, num?]
-
-theorem lowerC_idem (c : Nat) : lowerC (lowerC c) = lowerC c := by
-  unfold lowerC
-  by_cases h : 65 ≤ c ∧ c ≤ 90
-  · have h2 : ¬ (65 ≤ c + 32 ∧ c + 32 ≤ 90) := by omega
-    rw [if_pos h, if_neg h2]
-  · rw [if_neg h, if_neg h]
-
-/-! ### symmetry of `==` and `equality_test` on scalars, lists and tuples (induction on size) -/
-
-mutual
-/-- values built from scalars (ASCII strings), lists and tuples only -/
-def seqOnly : PyVal → Bool
-  | .list xs => seqOnlyList xs
-  | .tuple xs => seqOnlyList xs
-  | .set _ => false
-  | .dict _ _ => false
-  | .str s => isAscii s
-  | _ => true
-def seqOnlyList : List PyVal → Bool
-  | [] => true
-  | x :: xs => seqOnly x && seqOnlyList xs
-end
-
-theorem seqOnlyList_mem (xs : List PyVal) (h : seqOnlyList xs = true) : ∀ x ∈ xs, seqOnly x = true := by
-  induction xs with
-  | nil => intro x hx; cases hx
-  | cons y ys ih =>
-    simp only [seqOnlyList, Bool.and_eq_true] at h
-    intro x hx
-    cases hx with
-    | head => exact h.1
-    | tail _ hm => exact ih h.2 x hm
-
-theorem pyEqList_symm (xs ys : List PyVal) (h : ∀ x ∈ xs, ∀ y ∈ ys, pyEq x y = pyEq y x) :
-    pyEqList xs ys = pyEqList ys xs := by
-  induction xs generalizing ys with
-  | nil => cases ys <;> simp [pyEqList]
-  | cons x xs ih =>
-    cases ys with
-    | nil => simp [pyEqList]
-    | cons y ys =>
-      simp only [pyEqList]
-      rw [h x (List.mem_cons_self) y (List.mem_cons_self)]
-      rw [ih ys (fun a ha b hb => h a (List.mem_cons_of_mem _ ha) b (List.mem_cons_of_mem _ hb))]
-
-theorem eqSeq_symm (ex : Bool) (d : Option (Int × Nat)) (xs ys : List PyVal)
-    (h : ∀ x ∈ xs, ∀ y ∈ ys, eqTest ex d x y = eqTest ex d y x) :
-    eqSeq ex d xs ys = eqSeq ex d ys xs := by
-  induction xs generalizing ys with
-  | nil => cases ys <;> simp [eqSeq]
-  | cons x xs ih =>
-    cases ys with
-    | nil => simp [eqSeq]
-    | cons y ys =>
-      simp only [eqSeq]
-      rw [h x (List.mem_cons_self) y (List.mem_cons_self)]
-      rw [ih ys (fun a ha b hb => h a (List.mem_cons_of_mem _ ha) b (List.mem_cons_of_mem _ hb))]
-
-theorem eqTest_list (ex : Bool) (d : Option (Int × Nat)) (xs ys : List PyVal) :
-    eqTest ex d (.list xs) (.list ys) =
-      if pyEq (.list xs) (.list ys) then .ok true
-      else if xs.length != ys.length then .ok false else eqSeq ex d xs ys := by
-  simp [eqTest, isFloat, isIntOrFloat, num?]
-
-theorem eqTest_tuple (ex : Bool) (d : Option (Int × Nat)) (xs ys : List PyVal) :
-    eqTest ex d (.tuple xs) (.tuple ys) =
-      if pyEq (.tuple xs) (.tuple ys) then .ok true
-      else if xs.length != ys.length then .ok false else eqSeq ex d xs ys := by
-  simp [eqTest, isFloat, isIntOrFloat, num?]
-
-theorem pyEq_symm_aux : ∀ (n : Nat) (a e : PyVal), sizeOf a + sizeOf e ≤ n →
-    seqOnly a = true → seqOnly e = true → pyEq a e = pyEq e a := by
-  intro n
-  induction n with
-  | zero =>
-    intro a e h
-    cases a <;> simp at h
-  | succ n ih =>
-    intro a e hsz ha he
-    have seqCase : ∀ xs ys : List PyVal, sizeOf xs + sizeOf ys ≤ n → seqOnlyList xs = true →
-        seqOnlyList ys = true → pyEqList xs ys = pyEqList ys xs := by
-      intro xs ys hs hxs hys
-      refine pyEqList_symm xs ys (fun x hx y hy => ?_)
-      have h1 := List.sizeOf_lt_of_mem hx
-      have h2 := List.sizeOf_lt_of_mem hy
-      exact ih x y (by omega) (seqOnlyList_mem xs hxs x hx) (seqOnlyList_mem ys hys y hy)
-    cases a <;> cases e <;> first
-      | (simp [seqOnly] at ha; done)
-      | (simp [seqOnly] at he; done)
-      | (simp [pyEq, num?, numEq]; done)
-      | (simp [pyEq, num?, numEq]; exact BEq.comm)
-      | skip
-    case list.list xs ys =>
-      simp only [pyEq]
-      simp only [seqOnly] at ha he
-      simp only [PyVal.list.sizeOf_spec] at hsz
-      exact seqCase xs ys (by omega) ha he
-    case tuple.tuple xs ys =>
-      simp only [pyEq]
-      simp only [seqOnly] at ha he
-      simp only [PyVal.tuple.sizeOf_spec] at hsz
-      exact seqCase xs ys (by omega) ha he
-
-theorem pyEq_symm (a e : PyVal) (ha : seqOnly a = true) (he : seqOnly e = true) : pyEq a e = pyEq e a :=
-  pyEq_symm_aux _ a e (Nat.le_refl _) ha he
-
-theorem eqTest_num_symm (ex : Bool) (d : Int × Nat) (a e : PyVal) (x y : Int × Nat)
-    (ha : num? a = some x) (he : num? e = some y) : eqTest ex (some d) a e = eqTest ex (some d) e a := by
-  rw [eqTest_num ex d a e x y ha he, eqTest_num ex d e a y x he ha]
-  rw [numClose_comm y x d, numEq_comm y x, Bool.or_comm (isFloat e) (isFloat a)]
-
-theorem eqTest_str_symm (ex : Bool) (d : Option (Int × Nat)) (sa se : List Nat) :
-    eqTest ex d (.str sa) (.str se) = eqTest ex d (.str se) (.str sa) := by
-  rw [eqTest_str, eqTest_str, Bool.and_comm (isAscii sa) (isAscii se)]
-  have h1 : (sa == se) = (se == sa) := BEq.comm
-  have h2 : (normStr se == normStr sa) = (normStr sa == normStr se) := BEq.comm
-  rw [h1, h2]
-
-theorem eqTest_symm_aux (ex : Bool) (d : Int × Nat) : ∀ (n : Nat) (a e : PyVal), sizeOf a + sizeOf e ≤ n →
-    seqOnly a = true → seqOnly e = true → eqTest ex (some d) a e = eqTest ex (some d) e a := by
-  intro n
-  induction n with
-  | zero =>
-    intro a e h
-    cases a <;> simp at h
-  | succ n ih =>
-    intro a e hsz ha he
-    have hpe := pyEq_symm a e ha he
-    have seqCase : ∀ xs ys : List PyVal, sizeOf xs + sizeOf ys ≤ n → seqOnlyList xs = true →
-        seqOnlyList ys = true → eqSeq ex (some d) xs ys = eqSeq ex (some d) ys xs := by
-      intro xs ys hs hxs hys
-      refine eqSeq_symm ex (some d) xs ys (fun x hx y hy => ?_)
-      have h1 := List.sizeOf_lt_of_mem hx
-      have h2 := List.sizeOf_lt_of_mem hy
-      exact ih x y (by omega) (seqOnlyList_mem xs hxs x hx) (seqOnlyList_mem ys hys y hy)
-    cases a <;> cases e <;> first
-      | (simp [seqOnly] at ha; done)
-      | (simp [seqOnly] at he; done)
-      | (rw [eqTest.eq_def, eqTest.eq_def]; simp [isFloat, isIntOrFloat, num?, pyEq, numEq]; done)
-      | (rw [eqTest.eq_def, eqTest.eq_def]; simp [isFloat, isIntOrFloat, num?, pyEq, numEq]; exact BEq.comm)
-      | rfl
-      | exact eqTest_num_symm ex d _ _ _ _ rfl rfl
-      | exact eqTest_str_symm ex (some d) _ _
-      | skip
-    case list.list xs ys =>
-      rw [eqTest_list, eqTest_list, hpe]
-      have hl : (xs.length != ys.length) = (ys.length != xs.length) := by
-        simp only [bne, show (xs.length == ys.length) = (ys.length == xs.length) from BEq.comm]
-      simp only [seqOnly] at ha he
-      simp only [PyVal.list.sizeOf_spec] at hsz
-      rw [hl, seqCase xs ys (by omega) ha he]
-    case tuple.tuple xs ys =>
-      rw [eqTest_tuple, eqTest_tuple, hpe]
-      have hl : (xs.length != ys.length) = (ys.length != xs.length) := by
-        simp only [bne, show (xs.length == ys.length) = (ys.length == xs.length) from BEq.comm]
-      simp only [seqOnly] at ha he
-      simp only [PyVal.tuple.sizeOf_spec] at hsz
-      rw [hl, seqCase xs ys (by omega) ha he]
-
-/-! ### `equality_test` never raises on scalars, lists and tuples -/
-
-theorem eqSeq_ok (ex : Bool) (d : Option (Int × Nat)) (xs ys : List PyVal)
-    (h : ∀ x ∈ xs, ∀ y ∈ ys, ∃ b, eqTest ex d x y = .ok b) : ∃ b, eqSeq ex d xs ys = .ok b := by
-  induction xs generalizing ys with
-  | nil => cases ys <;> exact ⟨true, by simp [eqSeq]⟩
-  | cons x xs ih =>
-    cases ys with
-    | nil => exact ⟨true, by simp [eqSeq]⟩
-    | cons y ys =>
-      obtain ⟨b, hb⟩ := h x (List.mem_cons_self) y (List.mem_cons_self)
-      simp only [eqSeq, hb]
-      cases b
-      · exact ⟨false, rfl⟩
-      · exact ih ys (fun a ha b hb => h a (List.mem_cons_of_mem _ ha) b (List.mem_cons_of_mem _ hb))
-
-theorem eqTest_ok_aux (ex : Bool) (d : Int × Nat) : ∀ (n : Nat) (a e : PyVal), sizeOf a + sizeOf e ≤ n →
-    seqOnly a = true → seqOnly e = true → ∃ b, eqTest ex (some d) a e = .ok b := by
-  intro n
-  induction n with
-  | zero =>
-    intro a e h
-    cases a <;> simp at h
-  | succ n ih =>
-    intro a e hsz ha he
-    have seqCase : ∀ xs ys : List PyVal, sizeOf xs + sizeOf ys ≤ n → seqOnlyList xs = true →
-        seqOnlyList ys = true → ∃ b, eqSeq ex (some d) xs ys = .ok b := by
-      intro xs ys hs hxs hys
-      refine eqSeq_ok ex (some d) xs ys (fun x hx y hy => ?_)
-      have h1 := List.sizeOf_lt_of_mem hx
-      have h2 := List.sizeOf_lt_of_mem hy
-      exact ih x y (by omega) (seqOnlyList_mem xs hxs x hx) (seqOnlyList_mem ys hys y hy)
-    cases a <;> cases e <;> first
-      | (simp [seqOnly] at ha; done)
-      | (simp [seqOnly] at he; done)
-      | (rw [eqTest.eq_def]; simp [isFloat, isIntOrFloat, num?]; done)
-      | skip
-    case str.str sa se =>
-      simp only [seqOnly] at ha he
-      rw [eqTest_str]
-      cases ex <;> simp [ha, he]
-    case list.list xs ys =>
-      rw [eqTest_list]
-      simp only [seqOnly] at ha he
-      simp only [PyVal.list.sizeOf_spec] at hsz
-      split
-      · exact ⟨true, rfl⟩
-      · split
-        · exact ⟨false, rfl⟩
-        · exact seqCase xs ys (by omega) ha he
-    case tuple.tuple xs ys =>
-      rw [eqTest_tuple]
-      simp only [seqOnly] at ha he
-      simp only [PyVal.tuple.sizeOf_spec] at hsz
-      split
-      · exact ⟨true, rfl⟩
-      · split
-        · exact ⟨false, rfl⟩
-        · exact seqCase xs ys (by omega) ha he
 
 end Pedal.Assertions
